@@ -27,6 +27,49 @@ def warm_imports() -> None:
     pin_scheduler()
 
 
+WARM_SRC = """
+@guppy.struct
+class WarmS:
+    a: int
+    b: float
+
+@guppy
+def warm_helper(x: int, t: tuple[int, bool]) -> int:
+    return x + 1
+
+@guppy
+def warm_main() -> None:
+    s = WarmS(1, 2.5)
+    acc = 0
+    for i in range(3):
+        acc += warm_helper(i, (i, True)) * 2
+    while acc > 0 and not (acc == 7):
+        acc -= 1
+    xs = array(1, 2, 3)
+    y = xs[0] if acc < 3 else int(s.b)
+    q = qubit()
+    h(q)
+    q2 = qubit()
+    cx(q, q2)
+    b = measure(q)
+    discard(q2)
+    def nested(p: int) -> int:
+        return p + 1
+    z = nested(y)
+"""
+
+
+def warm_compile() -> None:
+    """One throw-away compile in the warm parent, followed by ENGINE.reset(): fills the
+    process-level caches (linecache, lazily imported modules, functools caches) so that
+    every forked run does not pay for them again.  All runs and all fresh-session
+    references still start from one and the same state."""
+    from guppylang_internals.engine import ENGINE
+    m = make_module("verif_warm", WARM_SRC)
+    m.warm_main.compile()
+    ENGINE.reset()
+
+
 def pin_scheduler(policy: str = "lowest") -> _sched.Scheduler:
     s = _sched.Scheduler(policy)
     _sched.install(s)
